@@ -101,6 +101,14 @@ def templates():
         T('defined_variables', exists([var('X')], disj(cmp(X, '=', t), atom('q', X))))
         T('defined_variables', forall([var('X')], conj(cmp(X, '=', t), atom('q', X))))
         T('defined_variables', exists([var('X'), var('Y')], conj(cmp(X, '=', t), conj(cmp(Y, '=', X), atom('r', X, Y)))))
+    # chained comparisons inside the existential body: `=` links before/after other links, bound variable at every position
+    MI, NI = ivar('M'), ivar('N')
+    for chain in (cmp(X, '<', Y, '=', num(3)), cmp(X, '=', Y, '<', num(3)), cmp(num(0), '<=', NI, '=', MI), cmp(num(3), '<', num(5), '=', X),
+                  cmp(MI, '<', NI, '=', add(MI, num(1))), cmp(X, '!=', Y, '=', Z), cmp(Y, '=', Z, '!=', X), cmp(num(1), '<', X, '<', Y, '=', Z),
+                  cmp(X, '=', num(1), '<', Y, '=', num(2)), cmp(Y, '>=', X, '=', X)):
+        for blk in ([var('X')], [var('M', 'i')], [var('Y')], [var('X'), var('Y')], [var('N', 'i'), var('M', 'i')], [var('Z')]):
+            for h in (atom('q', X), atom('r', X, Y), atom('q', MI), atom('p')):
+                T('defined_variables_chain', exists(blk, conj(chain, h)))
     for t in [YI, num(5), add(XI, num(1)), add(YI, num(1)), Y, sym('a'), mul(YI, YI)]:
         T('defined_variables', exists([var('X', 'i')], conj(cmp(XI, '=', t), atom('q', XI))))
         T('defined_variables', exists([var('X', 'i')], conj(cmp(t, '=', XI), atom('r', XI, X))))
